@@ -67,6 +67,42 @@ def ts_emit(shape, x):
     return a, a + 1.0
 
 
+SER_E = 'Object.keys(E).sort().map(k => k + "=" + (Object.is(E[k], -0) ? "-0" : String(E[k])) + ":" + typeof E[k]).join("|")'
+PAIRS = [
+    # (name, TypeScript program, the JavaScript the TypeScript compiler emits for it); both end with the same serialising expression
+    ('enum-negative-zero', 'enum E { A = -0, B, C = -5, D } ' + SER_E,
+     'var E; (function (E) { E[E["A"] = -0] = "A"; E[E["B"] = 1] = "B"; E[E["C"] = -5] = "C"; E[E["D"] = -4] = "D"; })(E || (E = {})); ' + SER_E),
+    ('enum-mixed', 'enum E { A = 0, B = "hello", C = 1 } ' + SER_E,
+     'var E; (function (E) { E[E["A"] = 0] = "A"; E["B"] = "hello"; E[E["C"] = 1] = "C"; })(E || (E = {})); ' + SER_E),
+    ('enum-string-concat', 'enum E { A = "a", B = A + "b" } ' + SER_E,
+     'var E; (function (E) { E["A"] = "a"; E["B"] = "ab"; })(E || (E = {})); ' + SER_E),
+    ('namespace-function-merge', 'function N() { return 1 } namespace N { export const x = 2; } String(N() + N.x)',
+     'function N() { return 1 } (function (N) { N.x = 2; })(N || (N = {})); String(N() + N.x)'),
+    ('parameter-properties', 'class A { log; constructor(public owner: string, private readonly balance = 10, note?: string) { this.log = this.owner + ":" + this.balance + ":" + note; '
+     'this.owner = owner.toUpperCase(); } } const a = new A("ann"); [a.log, a.owner, (a as any).balance].join()',
+     'class A { log; constructor(owner, balance = 10, note) { this.owner = owner; this.balance = balance; this.log = this.owner + ":" + this.balance + ":" + note; '
+     'this.owner = owner.toUpperCase(); } } const a = new A("ann"); [a.log, a.owner, a.balance].join()'),
+    ('parameter-property-early-return', 'class C { constructor(public x: number) { if (x) return; } } String(new C(1).x)',
+     'class C { constructor(x) { this.x = x; if (x) return; } } String(new C(1).x)'),
+    ('parameter-property-second-only', 'class P { constructor(a: number, readonly b: number) {} } Object.keys(new P(1, 2)).join()',
+     'class P { constructor(a, b) { this.b = b; } } Object.keys(new P(1, 2)).join()'),
+]
+
+
+def check_pairs(rep):
+    """replay route: a TypeScript program and its JavaScript emit give the same serialised result"""
+    outs = driver.replay([{'cmd': 'eval', 'src': x} for _, ts, js in PAIRS for x in (ts, js)])
+    bad = []
+    for i, (nme, ts, js) in enumerate(PAIRS):
+        rep.validated += 2
+        a, b = outs[2 * i], outs[2 * i + 1]
+        va = (a.get('value') or {}).get('v', a.get('error'))
+        vb = (b.get('value') or {}).get('v', b.get('error'))
+        if va != vb:
+            bad.append((nme, ts, js, va, vb))
+    return bad
+
+
 def run(rep):
     rep.bounds = dict(members='2 (thorough: also 3)', initializer='any f64 literal / negated literal / none', loops='member loop unrolled for 2 members')
     rep.assumptions = [
@@ -141,6 +177,10 @@ def run(rep):
             stores = [('fwd' if ev[1].discr == sp else 'rev') for ev in e.st.events if ev[0] == 'emit' and isinstance(ev[1], EnumV) and ev[1].discr in (sp, rv)]
             nmem = 3 if shape.endswith('3') else 2
             goals.append(('forward and reverse mappings stored for every member in declaration order', z3.BoolVal(stores == ['fwd', 'rev'] * nmem)))
+            n_init = {'literal': 1, 'negated': 1, 'auto': 0, 'literal3': 1, 'auto3': 0, 'mid3': 1}[shape]
+            init_calls = sum(1 for ev in e.st.events if ev[0] == 'call' and str(ev[1]).endswith('compile_enum_init_expression'))
+            goals.append(('a member with an initialiser gets its value from the expression compiler (the initialiser means what the expression means, -0 included), '
+                          'only members without one are loaded as constants', z3.BoolVal(init_calls == n_init and len(loads) == nmem - n_init)))
             for label, g in goals:
                 t = time.time()
                 r, m = ex.check_sat_pc(e.st.pc, [z3.Not(g)])
@@ -152,6 +192,11 @@ def run(rep):
         rep.vacuity.append('compile_enum_declaration [%s]: %d paths' % (shape, len(ends)))
         rep.sample({'kernel': 'compile_enum_declaration', 'shape': shape, 'paths': len(ends)})
         rep.absorb(ex)
+    pair_bad = check_pairs(rep)
+    if pair_bad and not rep.seen('C04/emit-pair'):
+        nme, ts, js, a, b = pair_bad[0]
+        p = rep.write_replay('pair', {'name': nme, 'typescript': ts, 'javascript_emit': js, 'typescript_result': a, 'emit_result': b, 'all': [x[0] for x in pair_bad]})
+        rep.violation('C04/emit-pair/%s' % nme, 'the TypeScript program gives %r, its JavaScript emit %r (%s): %s' % (a, b, nme, ts[:160]), p)
     if concrete_bad and not rep.violations and not rep.known_hits:
         s, want, got = concrete_bad[0]
         p = rep.write_replay('fixed', {'cmd': 'eval', 'src': s, 'expected': want, 'observed': repr(got)})
